@@ -1,0 +1,101 @@
+//go:build verif
+
+// Contracts for the verification machinery in /verif (govc). Comment-only.
+
+package dsp
+
+// ---- VP8L pixel kernels equal the specification's functions (C01 C03 C13) ----
+
+//@ lemma lAverage2IsSpec(a uint32, b uint32)
+//@   property C01 C03 C13
+//@   ensures lAverage2(a, b) == SpecAverage2(a, b)
+//
+//@ lemma lSelectIsSpec(l uint32, t uint32, tl uint32)
+//@   property C01 C03 C13
+//@   ensures lSelect(t, l, tl) == SpecSelect(l, t, tl)
+//
+//@ lemma lClampFullIsSpec(a uint32, b uint32, c uint32)
+//@   property C01 C03 C13
+//@   ensures lClampedAddSubtractFull(a, b, c) == SpecClampAddSubtractFull(a, b, c)
+//
+//@ lemma lClampHalfIsSpec(a uint32, b uint32, c uint32)
+//@   property C01 C03 C13
+//@   ensures lClampedAddSubtractHalf(a, b, c) == SpecClampAddSubtractHalf(SpecAverage2(a, b), c)
+//
+//@ lemma predictorsAreSpec(left *uint32, top []uint32)
+//@   property C03 C13
+//@   requires left != nil && len(top) >= 3
+//@   ensures pred0(left, top) == SpecPredict(0, *left, top[1], top[2], top[0])
+//@   ensures pred1(left, top) == SpecPredict(1, *left, top[1], top[2], top[0])
+//@   ensures pred2(left, top) == SpecPredict(2, *left, top[1], top[2], top[0])
+//@   ensures pred3(left, top) == SpecPredict(3, *left, top[1], top[2], top[0])
+//@   ensures pred4(left, top) == SpecPredict(4, *left, top[1], top[2], top[0])
+//@   ensures pred5(left, top) == SpecPredict(5, *left, top[1], top[2], top[0])
+//@   ensures pred6(left, top) == SpecPredict(6, *left, top[1], top[2], top[0])
+//@   ensures pred7(left, top) == SpecPredict(7, *left, top[1], top[2], top[0])
+//@   ensures pred8(left, top) == SpecPredict(8, *left, top[1], top[2], top[0])
+//@   ensures pred9(left, top) == SpecPredict(9, *left, top[1], top[2], top[0])
+//@   ensures pred10(left, top) == SpecPredict(10, *left, top[1], top[2], top[0])
+//@   ensures pred12(left, top) == SpecPredict(12, *left, top[1], top[2], top[0])
+//@   ensures pred13(left, top) == SpecPredict(13, *left, top[1], top[2], top[0])
+//
+//@ lemma predictor11IsSpec(left *uint32, top []uint32)
+//@   property C03 C13
+//@   requires left != nil && len(top) >= 3
+//@   ensures pred11(left, top) == lSelect(top[1], *left, top[0])
+//
+//@ lemma colorTransformPair(g2r uint8, g2b uint8, r2b uint8, p uint32)
+//@   property C01
+//@   ensures SpecColorInverse(g2r, g2b, r2b, SpecColorForward(g2r, g2b, r2b, p)) == p
+//
+//@ lemma greenPair(p uint32)
+//@   property C01
+//@   ensures SpecAddGreen(SpecSubGreen(p)) == p
+//
+//@ lemma pixelPair(a uint32, b uint32)
+//@   property C01
+//@   ensures SpecAddPixels(SpecSubPixels(a, b), b) == a
+//
+//@ func addGreenToBlueAndRedGo
+//@   property C01 C03 C05 C13
+//@   requires 0 <= numPixels && numPixels <= len(argb)
+//@   modifies argb[:numPixels]
+//@   loop 0: invariant 0 <= i && i <= numPixels
+//@   loop 0: invariant forall k int :: 0 <= k && k < i ==> argb[k] == SpecAddGreen(old(argb[k]))
+//@   loop 0: invariant forall k int :: i <= k && k < len(argb) ==> argb[k] == old(argb[k])
+//@   loop 0: decreases numPixels - i
+//@   ensures forall k int :: 0 <= k && k < numPixels ==> argb[k] == SpecAddGreen(old(argb[k]))
+//
+//@ func subtractGreenGo
+//@   property C01 C13
+//@   requires 0 <= numPixels && numPixels <= len(argb)
+//@   modifies argb[:numPixels]
+//@   loop 0: invariant 0 <= i && i <= numPixels
+//@   loop 0: invariant forall k int :: 0 <= k && k < i ==> argb[k] == SpecSubGreen(old(argb[k]))
+//@   loop 0: invariant forall k int :: i <= k && k < len(argb) ==> argb[k] == old(argb[k])
+//@   loop 0: decreases numPixels - i
+//@   ensures forall k int :: 0 <= k && k < numPixels ==> argb[k] == SpecSubGreen(old(argb[k]))
+//
+//@ func TransformColorInverse
+//@   tier thorough
+//@   property C01 C03 C05
+//@   requires m != nil && 0 <= numPixels && numPixels <= len(src) && numPixels <= len(dst)
+//@   requires base(src) != base(dst)
+//@   modifies dst[:numPixels]
+//@   loop 0: invariant 0 <= i && i <= numPixels
+//@   loop 0: invariant forall k int :: 0 <= k && k < i ==> dst[k] == SpecColorInverse(m.GreenToRed, m.GreenToBlue, m.RedToBlue, old(src[k]))
+//@   loop 0: invariant forall k int :: numPixels <= k && k < len(dst) ==> dst[k] == old(dst[k])
+//@   loop 0: decreases numPixels - i
+//@   ensures forall k int :: 0 <= k && k < numPixels ==> dst[k] == SpecColorInverse(m.GreenToRed, m.GreenToBlue, m.RedToBlue, old(src[k]))
+//
+//@ func TransformColor
+//@   tier thorough
+//@   property C01
+//@   requires m != nil && 0 <= numPixels && numPixels <= len(src) && numPixels <= len(dst)
+//@   requires base(src) != base(dst)
+//@   modifies dst[:numPixels]
+//@   loop 0: invariant 0 <= i && i <= numPixels
+//@   loop 0: invariant forall k int :: 0 <= k && k < i ==> dst[k] == SpecColorForward(m.GreenToRed, m.GreenToBlue, m.RedToBlue, old(src[k]))
+//@   loop 0: invariant forall k int :: numPixels <= k && k < len(dst) ==> dst[k] == old(dst[k])
+//@   loop 0: decreases numPixels - i
+//@   ensures forall k int :: 0 <= k && k < numPixels ==> dst[k] == SpecColorForward(m.GreenToRed, m.GreenToBlue, m.RedToBlue, old(src[k]))
